@@ -28,6 +28,7 @@ type c17Scenario struct {
 	AroundHex  string `json:"around_boundary_hex,omitempty"`
 	Reads      []int  `json:"read_lengths,omitempty"`
 	Block      int    `json:"block_size,omitempty"`
+	AsModule   bool   `json:"file_is_an_imported_module,omitempty"`
 	Lines      int    `json:"program_lines,omitempty"`
 	Got        string `json:"got,omitempty"`
 	Want       string `json:"want,omitempty"`
@@ -133,6 +134,11 @@ func runC17(t *zsim.Tape, cfg *hlib.Config) *hlib.Outcome {
 		return runC17Conc(t, cfg)
 	}
 	sc.Target = []string{"FileStream.ReadAll", "FileStream.ReadAll", "LoadFile.Execute", "ByteStream.ReadAll", "FileStream.Read(n)"}[t.Draw(5)]
+	if sc.Target == "LoadFile.Execute" && t.Draw(3) == 2 {
+		// the file under test is an imported MODULE of a one-line main file: module sources go
+		// through the same promise as the file named on the command line
+		sc.AsModule = true
+	}
 	if sc.Target == "FileStream.Read(n)" {
 		// the public block-wise API with a caller-chosen block size ("all read block sizes")
 		sc.Block = c17Blocks[t.Draw(len(c17Blocks))]
@@ -212,11 +218,16 @@ func runC17(t *zsim.Tape, cfg *hlib.Config) *hlib.Outcome {
 
 	w := zsim.NewWorld(t)
 	d := zsim.NewDisk(w)
-	d.Put("/src/main.zn", data)
+	srcPath := "/src/main.zn"
+	if sc.AsModule {
+		srcPath = "/src/被测.zn"
+		d.Put("/src/main.zn", []byte("导入“被测”\n"))
+	}
+	d.Put(srcPath, data)
 	eioPlanned := false
 	if sc.Profile == "stream" && t.Draw(3) == 2 {
 		// the source is a named pipe / process substitution: stat reports size 0
-		d.PutPipe("/src/main.zn", data)
+		d.PutPipe(srcPath, data)
 		sc.Class += "+pipe(stat size 0)"
 	}
 	if sc.Profile == "stream" {
@@ -231,7 +242,7 @@ func runC17(t *zsim.Tape, cfg *hlib.Config) *hlib.Outcome {
 	}
 	w.Enter()
 	defer w.Leave()
-	out.Keys = []string{fmt.Sprintf("%s|%s|%s|%s|eio=%v|sz%d|b%d", sc.Profile, sc.Target, sc.Class, sc.Corruption, eioPlanned, len(data)%4096%7, sc.Block)}
+	out.Keys = []string{fmt.Sprintf("%s|%s|%s|%s|eio=%v|sz%d|b%d|m%v", sc.Profile, sc.Target, sc.Class, sc.Corruption, eioPlanned, len(data)%4096%7, sc.Block, sc.AsModule)}
 
 	var gotRunes []rune
 	var gotErr error
